@@ -90,6 +90,9 @@ type Instance struct {
 	gmarker  marker.GroupMarker
 	api      *apiv2.API
 	pbuilder *notify.PipelineBuilder
+	gen      int // pipeline generation in force (incremented once the previous dispatcher has been stopped)
+	genMtx   sync.Mutex
+	oldDisps []*dispatch.Dispatcher
 	dmetrics *dispatch.DispatcherMetrics
 
 	disp *dispatch.Dispatcher
@@ -121,6 +124,7 @@ type scripted struct {
 	inst     *Instance
 	receiver string
 	idx      int
+	gen      int // the pipeline generation (configuration load) this integration belongs to
 }
 
 func mapOf(ls model.LabelSet) map[string]string {
@@ -134,6 +138,9 @@ func mapOf(ls model.LabelSet) map[string]string {
 func (n *scripted) Notify(ctx context.Context, alerts ...*alert.Alert) (bool, error) {
 	s := n.inst.sim
 	at := Attempt{Inst: n.inst.idx, T: time.Now(), Receiver: n.receiver, Idx: n.idx, Epoch: n.inst.epoch}
+	n.inst.genMtx.Lock()
+	at.Replaced = n.gen != n.inst.gen
+	n.inst.genMtx.Unlock()
 	at.GroupKey, _ = notify.GroupKey(ctx)
 	if gl, ok := notify.GroupLabels(ctx); ok {
 		at.GroupLabels = mapOf(gl)
@@ -337,10 +344,10 @@ func (in *Instance) reload(spec *Config) error {
 		var ins []notify.Integration
 		// same order as config/receiver.BuildReceiverIntegrations: all webhooks, then all discords
 		for i, wc := range rcv.WebhookConfigs {
-			ins = append(ins, notify.NewIntegration(&scripted{inst: in, receiver: rcv.Name, idx: i}, sendResolved(wc.SendResolved()), "webhook", i, rcv.Name))
+			ins = append(ins, notify.NewIntegration(&scripted{inst: in, receiver: rcv.Name, idx: i, gen: in.gen + 1}, sendResolved(wc.SendResolved()), "webhook", i, rcv.Name))
 		}
 		for i, dc := range rcv.DiscordConfigs {
-			ins = append(ins, notify.NewIntegration(&scripted{inst: in, receiver: rcv.Name, idx: DiscordBase + i}, sendResolved(dc.SendResolved()), "discord", i, rcv.Name))
+			ins = append(ins, notify.NewIntegration(&scripted{inst: in, receiver: rcv.Name, idx: DiscordBase + i, gen: in.gen + 1}, sendResolved(dc.SendResolved()), "discord", i, rcv.Name))
 		}
 		receivers[rcv.Name] = ins
 	}
@@ -358,7 +365,12 @@ func (in *Instance) reload(spec *Config) error {
 	}
 	if in.disp != nil {
 		in.disp.Stop()
+		in.oldDisps = append(in.oldDisps, in.disp)
 	}
+	// from here on the previous dispatcher has returned from Stop: nothing of its pipeline may notify any more
+	in.genMtx.Lock()
+	in.gen++
+	in.genMtx.Unlock()
 	newInh := inhibit.NewInhibitor(in.alerts, conf.InhibitRules, nopLog, eventrecorder.NopRecorder())
 	wait := func() time.Duration { return 0 }
 	var peer notify.Peer
@@ -419,6 +431,11 @@ func (in *Instance) stop(clean bool) (silSnap, nflogSnap []byte) {
 	}
 	if in.disp != nil {
 		in.disp.Stop()
+	}
+	// (a replaced dispatcher that survived its Stop is stopped again so that the bubble can end; what it did in the
+	// meantime is in the trace)
+	for _, d := range in.oldDisps {
+		d.Stop()
 	}
 	if clean {
 		var b1, b2 bytes.Buffer
